@@ -376,3 +376,46 @@ def full_slice_element(link, slice_expr=None):
     if slice_expr is not None and sl != slice_expr:
         return None
     return sl
+
+
+def loop_of_element(fn, fa, link):
+    """For the element expression of a `for` loop (any adaptor chain): {"switch", "some", "none", "head", "body", "exits"}.
+    `exits` lists the CFG edges that leave the natural loop other than the iterator-exhausted arm (break / return / ?)."""
+    from .cfg import cfg_of
+    nxt = [x for x in walk(link) if is_iter_next(x)]
+    if not nxt:
+        return None
+    arms = result_arms(fn, fa, lambda e: e == nxt[0])
+    if len(arms) != 1 or "Some" not in arms[0][1] or "None" not in arms[0][1]:
+        return None
+    cfg = cfg_of(fn)
+    sw, a = arms[0]
+    lp = cfg.innermost_loop_of(sw)
+    if lp is None:
+        return None
+    head, body = lp
+    exits = []
+    for x in sorted(body):
+        for y in cfg.succ[x]:
+            if y not in body and not (x == sw and y == a["None"]):
+                exits.append((x, y))
+    return {"switch": sw, "some": a["Some"], "none": a["None"], "head": head, "body": body, "exits": exits}
+
+
+def every_iteration_reaches(world, fn, fa, link, site_bb, allowed_atom):
+    """The loop whose element is `link` has no early exit, and within one iteration block `site_bb` is reached under a
+    condition built only from atoms accepted by allowed_atom (e.g. "this link has an I/O handle").  Returns (ok, detail)."""
+    from .pathcond import PathA
+    lp = loop_of_element(fn, fa, link)
+    if lp is None:
+        return False, "loop of the element not recognised"
+    if lp["exits"]:
+        return False, "loop can be left early by edges %s" % lp["exits"][:4]
+    pa = PathA(world, fn, entry=lp["some"])
+    pc = pa.pc_block(site_bb)
+    if pc == pa.bdd.FALSE:
+        return False, "site not reachable from the loop body entry"
+    bad = [a for a in pa.atoms_of(pc) if not allowed_atom(a)]
+    if bad:
+        return False, "an iteration reaches the site only under %s" % pa.show(pc)[:200]
+    return True, "per iteration: %s" % pa.show(pc)[:200]
